@@ -25,7 +25,7 @@ fn gen_case(r: &mut Rng, tier: &str, idx: usize) -> (String, Vec<i64>, f64, usiz
         let n = ws.len();
         return ("exhaustive_small".to_string(), ws, 0.0, n);
     }
-    let fam = r.below(14);
+    let fam = r.below(15);
     let mut forced_tol: Option<f64> = None;
     let (name, ws): (&str, Vec<i64>) = match fam {
         0 | 9 | 10 | 11 => {
@@ -56,6 +56,20 @@ fn gen_case(r: &mut Rng, tier: &str, idx: usize) -> (String, Vec<i64>, f64, usiz
             let total: i64 = ws.iter().sum();
             forced_tol = Some(if slack == 0 || total == 0 { 0.0 } else { slack as f64 / total as f64 });
             ("pair_vs_rest", ws)
+        }
+        14 => {
+            // sums close to (but inside) the i64 range: the contract only asks that sums do not overflow
+            let n = r.range(2, 6) as usize;
+            let budget = i64::MAX / 4 * 3; // total stays below 0.75 * i64::MAX
+            let mut left = budget;
+            let mut ws = Vec::new();
+            for k in 0..n {
+                let x = if k + 1 == n { r.range(0, left.min(1 << 40)) } else { r.range(left / 3, left / 2) };
+                ws.push(x);
+                left -= x;
+            }
+            forced_tol = Some(*r.pick(&[0.0, 0.5, 0.9, 0.99, 1.0]));
+            ("near_i64_max", ws)
         }
         1 => {
             let n = r.range(2, if big { 13 } else { 11 }) as usize;
